@@ -19,12 +19,19 @@ func GenTableSet(seed int64, idx int) *TableSet {
 	r := NewRng(Mix(seed^0x3e7, int64(idx)))
 	ts := &TableSet{}
 	k := 1 + r.Intn(6)
+	if idx%7 == 3 {
+		// wide stacks (the merge heap, its seeding and its tie-breaks at 7..30 inputs)
+		k = 7 + r.Intn(24)
+	}
 	sha256 := idx%2 == 1
 	hs := 20
 	if sha256 {
 		hs = 32
 	}
 	nnames := []int{2, 5, 12, 40, 120}[r.Intn(5)]
+	if k > 6 && nnames > 40 {
+		nnames = 40
+	}
 	style := NameStyle(r.Intn(4))
 	ts.Names = r.Names(nnames, style)
 	pool := r.NewPool(hs, []int{1, 2, 4, 12}[r.Intn(4)])
